@@ -197,6 +197,13 @@ func c14CheckCommitted(o *fw.Obs, w *c14World, st0 *c14State, class, how string)
 
 func c14Run(c *fw.Case, env *fw.Env) *fw.Obs {
 	o := fw.NewObs(c)
+	if c.Kind == "cli" {
+		// the real binary: `wrgl transaction commit` killed before (or failed at) every store write,
+		// including the writes inside one ref-store call, then re-run (driver shared with C13)
+		var cp c13Params
+		c.P(&cp)
+		return c13CLI(c, env, o, &cp)
+	}
 	var p c14Params
 	c.P(&p)
 	newCount := 0
@@ -470,6 +477,9 @@ func init() {
 				for _, sq := range []string{"commit,commit", "commit,discard", "discard,commit", "discard,discard", "commit,commit,commit"} {
 					l.Add("sequence", c14Params{K: len(mix), Existing: mix, Mode: "sequence", Sequence: sq}, 0)
 				}
+			}
+			for _, fault := range []string{"crash", "fail"} {
+				l.Add("cli", c13Params{Driver: "cli", Op: "tx-commit", Rows: 5, Fault: fault, Workers: 1}, 0)
 			}
 			return l.Cases
 		},
